@@ -22,7 +22,7 @@ TRUSTED_BASE = ["Model/Script.v: the callback chain as an interpreter over opera
                 "chain runs under twisted.internet.task.Clock", "Model/Command.v supplies the operations (C10), Model/ClientOps.v the bytes"]
 ASSUMPTIONS = ["server commits arrive at times distinct from timer expiries (no ties in the schedule)",
                "timestamps are compared with a 1e-6 s tolerance (the Clock adds binary floats, the model exact rationals)"]
-EXTRA_VO = ["Proofs/CommandTie.vo"]
+EXTRA_VO = []
 
 W, H = 4, 3
 COLOURS = [(200, 10, 10), (10, 200, 10), (10, 10, 200), (120, 120, 0), (0, 0, 0)]
